@@ -71,6 +71,20 @@ Global Instance exec_note_n_spec s no len qlen vel timing slur :
   Spec (exec_note_n s no len qlen vel timing slur) (np (exec_note_n s no len qlen vel timing slur))
   := exec_note_n_np s no len qlen vel timing slur.
 
+(* TempoChange: Ok, or Unsupported (a ramp beyond RAMP_MAX ticks; a time base below 4) *)
+Lemma exec_tempo_change_total s a rest :
+  match exec_tempo_change s a rest with Ok _ | Unsupported _ => True | _ => False end.
+Proof.
+  unfold exec_tempo_change, tempo_change_a_to_b. destruct rest as [|b [|len [|x r]]]; try exact I;
+    destruct (_ =? 0); try exact I; destruct (RAMP_MAX <? _); exact I.
+Qed.
+Lemma exec_tempo_change_np s a rest : np (exec_tempo_change s a rest).
+Proof. pose proof (exec_tempo_change_total s a rest) as T. destruct (exec_tempo_change s a rest); try exact I; destruct T. Qed.
+Global Instance exec_tempo_change_spec s a rest : Spec (exec_tempo_change s a rest) (np (exec_tempo_change s a rest))
+  := exec_tempo_change_np s a rest.
+Lemma exec_tempo_change_nf s a rest : nf (exec_tempo_change s a rest).
+Proof. pose proof (exec_tempo_change_total s a rest) as T. destruct (exec_tempo_change s a rest); try exact I; destruct T. Qed.
+
 Section ExecNP.
 Variable ec : list tok -> res song -> res song.
 Hypothesis ec_np : forall X r, np r -> np (ec X r).
@@ -197,6 +211,7 @@ Proof.
   assert (ENN : forall s no len qlen vel timing slur,
             Spec (exec_note_n s no len qlen vel timing slur) (nf (exec_note_n s no len qlen vel timing slur)))
     by exact exec_note_n_nf.
+  assert (ETC : forall s a rest, Spec (exec_tempo_change s a rest) (nf (exec_tempo_change s a rest))) by exact exec_tempo_change_nf.
   intros T B. destruct t; cbn [tok_fuel_ok] in T; try discriminate T.
   all: try (np_start; cbn [step_song] in H; repeat brk H; np_end H; fail).
   - cbn [step_song]. match goal with |- context [ec ?X (Ok ?x)] => pose proof (ec_nf X x T B) as Q; destruct (ec X (Ok x)) end; exact Q || exact I.
